@@ -27,6 +27,10 @@ func UnwrapPtr(x any) any {
 		return x
 	}
 	for refVal.Kind() == reflect.Ptr {
+		// a nil pointer at any level has nothing behind it (Elem would give the zero Value, whose Interface panics)
+		if refVal.IsNil() {
+			return nil
+		}
 		refVal = refVal.Elem()
 	}
 	return refVal.Interface()
